@@ -37,6 +37,7 @@ def run(ctx):
     r5(ctx)
     r6(ctx)
     ctx.min_instances('C15.R6', 2)
+    r7(ctx)
     ctx.min_instances('C15.R1', 3)
     ctx.min_instances('C15.R2', 9)
     ctx.min_instances('C15.R3', 7)
@@ -615,3 +616,55 @@ def r6(ctx):
                                                    [:60]))
     if n == 0:
         raise AnalysisError('C15.R6: no np.roll call found')
+
+
+def r7(ctx):
+    """One duct-peak slot per duct wall of the assembly: the slot count is a
+    maximum over ALL axial regions (collection), not the duct count of one
+    fixed region (element) -- the regions are sorted axially, so a fixed
+    index is whatever region happens to be lowest."""
+    fi = ctx.repo.func('assembly', 'Assembly.__init__')
+    st = [x for t, x in U.stores(fi.node)
+          if src(t) == "self._peak['duct']" and isinstance(x, ast.Assign)]
+    if len(st) != 1:
+        raise AnalysisError("Assembly.__init__: store of _peak['duct']")
+    # backward slice over locals
+    exprs = [st[0].value]
+    seen = set()
+    work = [x.id for x in ast.walk(st[0].value) if isinstance(x, ast.Name)]
+    params = set(fi.params)
+    while work:
+        nm = work.pop()
+        if nm in seen or nm in params:
+            continue
+        seen.add(nm)
+        for a in U.assigns_of(fi.node, nm):
+            if isinstance(a, (ast.Assign, ast.AugAssign)):
+                exprs.append(a.value)
+                work += [x.id for x in ast.walk(a.value)
+                         if isinstance(x, ast.Name)]
+                for tst, pol in U.guards(a):
+                    exprs.append(tst)
+    fixed = [x for e in exprs for x in ast.walk(e)
+             if isinstance(x, ast.Subscript) and src(x.value) == 'self.region'
+             and isinstance(const(x.slice), int)]
+    over_all = any(
+        isinstance(x, (ast.ListComp, ast.GeneratorExp)) and any(
+            src(g.iter) == 'self.region' for g in x.generators)
+        for e in exprs for x in ast.walk(e)) or any(
+            isinstance(n, ast.For) and src(n.iter) in (
+                'self.region', 'range(len(self.region))')
+            and any(isinstance(a, (ast.Assign, ast.AugAssign)) and any(
+                isinstance(t, ast.Name) and t.id in seen
+                for t in (a.targets if isinstance(a, ast.Assign)
+                          else [a.target])) for a in ast.walk(n))
+            for n in ast.walk(fi.node))
+    has_max = any(isinstance(x, ast.Call) and (call_name(x) or '') in (
+        'max', 'np.max') for e in exprs for x in ast.walk(e))
+    ctx.require(not fixed and over_all and has_max, 'C15.R7', fi,
+                fixed[0] if fixed else st[0],
+                'the number of duct-peak slots must be the maximum duct '
+                'count over all axial regions; %s'
+                % ('it is read from the fixed element `%s`' % src(fixed[0])
+                   if fixed else 'no maximum over self.region found'),
+                key=fi.full + ' | duct peak slots')
